@@ -1443,9 +1443,111 @@ fn replay(path: &str) -> i32 {
                 }
             }
         }
+        Some(op) if op.starts_with("od-") => {
+            // the `OptionalDuration` algebra is a fixed, exhaustive table: re-run it (without the model)
+            let args = Args::parse();
+            let mut cx = Ctx {
+                rep: Report::new("keepalive", &args, "replay of the OptionalDuration algebra table"),
+                drv: None,
+                hung: 0,
+                exited_after_silent_close: 0,
+                seen_kinds: std::collections::HashSet::new(),
+                model_fails: 0,
+                long_uptime_ticks: 0,
+                long_uptime_max_ms: 0,
+            };
+            od_algebra(&mut cx);
+            if cx.rep.has_failures() {
+                println!("FAILS: the OptionalDuration algebra table");
+                1
+            } else {
+                println!("holds");
+                0
+            }
+        }
         _ => {
             println!("unknown replay");
             2
+        }
+    }
+}
+
+/// The algebra of `OptionalDuration` on its own (timing.rs: `Ord`, `From<Duration>`, `FromStr`,
+/// `cmp_duration`), which the keepalive clamp (`min`/`max` of interval and timeout), the tick test and the
+/// command line rest on: every pair / triple over a value grid with NONE, a finite zero and boundary values,
+/// against (a) the order's specification computed here — NONE is the greatest element, finite values compare
+/// as numbers, the order is total, antisymmetric and transitive, `max` is the greater one — and (b) the model.
+fn od_algebra(cx: &mut Ctx) {
+    use std::cmp::Ordering;
+    let grid: Vec<Option<u64>> = vec![None, Some(0), Some(1), Some(2), Some(999), Some(1000), Some(1001), Some(u64::from(u32::MAX)), Some(1 << 40)];
+    let tok = |o: OptionalDuration| -> String { Option::<Duration>::from(o).map_or_else(|| "-".to_string(), |d| d.as_millis().to_string()) };
+    let name = |c: Ordering| match c { Ordering::Less => "lt", Ordering::Equal => "eq", Ordering::Greater => "gt" };
+    let mut reqs = vec![];
+    let mut got = vec![];
+    for &a in &grid {
+        for &b in &grid {
+            let (x, y) = (od(a), od(b));
+            let c = x.cmp(&y);
+            cx.rep.case(Some(pvh::fnv(format!("od cmp {a:?} {b:?}").as_bytes())));
+            cx.rep.count(&format!("od-algebra/cmp:{}", name(c)));
+            // (a) the specification
+            let want = match (a, b) { (None, None) => Ordering::Equal, (None, Some(_)) => Ordering::Greater, (Some(_), None) => Ordering::Less, (Some(p), Some(q)) => p.cmp(&q) };
+            let mx = x.max(y);
+            let bad = c != want || y.cmp(&x) != want.reverse() || (x <= y) != (want != Ordering::Greater) || (x == y) != (a == b)
+                || tok(mx) != tok(if want == Ordering::Greater { x } else { y });
+            if bad {
+                cx.rep.fail(FailKind::Impl, "od-order", &format!("OptionalDuration order: {a:?} vs {b:?}: cmp {c:?}, max {}", tok(mx)), json!({"op": "od-cmp", "a": a, "b": b}));
+            }
+            for &z in &grid {
+                let w = od(z);
+                if x <= y && y <= w && !(x <= w) {
+                    cx.rep.fail(FailKind::Impl, "od-order", &format!("OptionalDuration order is not transitive on {a:?} {b:?} {z:?}"), json!({"op": "od-trans", "a": a, "b": b, "c": z}));
+                }
+            }
+            reqs.push(format!("od cmp {} {}", od_tok(a), od_tok(b)));
+            got.push(format!("{} max={} le={}", name(c), tok(mx), x <= y));
+            if let Some(ms) = b {
+                let cd = x.cmp_duration(&Duration::from_millis(ms));
+                let want_d = a.map_or(Ordering::Greater, |p| p.cmp(&ms));
+                if cd != want_d {
+                    cx.rep.fail(FailKind::Impl, "od-order", &format!("cmp_duration({a:?}, {ms} ms) = {cd:?}"), json!({"op": "od-cmpd", "a": a, "d": ms}));
+                }
+                reqs.push(format!("od cmpd {} {ms}", od_tok(a)));
+                got.push(name(cd).to_string());
+            }
+        }
+    }
+    for ms in [0u64, 1, 999, 1000, 86_400_000, u64::from(u32::MAX) + 1] {
+        let o = OptionalDuration::from(Duration::from_millis(ms));
+        cx.rep.case(Some(pvh::fnv(format!("od from {ms}").as_bytes())));
+        cx.rep.count(if o.is_none() { "od-algebra/from:none" } else { "od-algebra/from:some" });
+        if o.is_none() != (ms == 0) || o.is_some() != (ms != 0) {
+            cx.rep.fail(FailKind::Impl, "od-from", &format!("From<Duration>({ms} ms) = {}", tok(o)), json!({"op": "od-from", "ms": ms}));
+        }
+        reqs.push(format!("od from {ms}"));
+        got.push(tok(o));
+    }
+    for text in ["0", "1", "60", "0060", "+5", "4294967296", "18446744073709551", "18446744073709551616", "-1", "", " 5", "5s", "1.5"] {
+        let r: Result<OptionalDuration, _> = text.parse();
+        let u = text.parse::<u64>().ok();
+        cx.rep.case(Some(pvh::fnv(format!("od str {text}").as_bytes())));
+        cx.rep.count(if r.is_ok() { "od-algebra/str:ok" } else { "od-algebra/str:err" });
+        // the documented reading: whole seconds, 0 = none, anything that is no u64 is refused
+        let want = u.map(|v| if v == 0 { "-".to_string() } else { (u128::from(v) * 1000).to_string() });
+        if r.as_ref().ok().map(|o| tok(*o)) != want {
+            cx.rep.fail(FailKind::Impl, "od-from-str", &format!("`{text}`.parse::<OptionalDuration>() = {:?}", r.as_ref().ok().map(|o| tok(*o))), json!({"op": "od-str", "text": text}));
+        }
+        reqs.push(format!("od str {}", u.map_or_else(|| "x".to_string(), |v| format!("u:{v}"))));
+        got.push(r.map_or_else(|_| "err".to_string(), |o| format!("ok {}", tok(o))));
+    }
+    if let Some(d) = cx.drv.as_mut() {
+        let ans = d.batch(&reqs);
+        for ((q, m), g) in reqs.iter().zip(&ans).zip(&got) {
+            cx.rep.model_compared += 1;
+            if m != g {
+                cx.rep.fail(FailKind::Model, "od-algebra", &format!("`{q}`: model `{m}`, implementation `{g}`"), json!({"op": "od-model", "line": q}));
+                break;
+            }
         }
     }
 }
@@ -1475,6 +1577,7 @@ enabled and at least two ticks inside the horizon; distinct by content";
         long_uptime_ticks: 0,
         long_uptime_max_ms: 0,
     };
+    od_algebra(&mut cx);
     let threads = std::thread::available_parallelism().map_or(4, std::num::NonZero::get).min(16);
     let rng = Rng::new(args.seed);
 
